@@ -65,18 +65,40 @@ def run_shard(prop: str, tier: str, seed: int, shard: int, nshards: int, replay=
     _g.set_rng(__import__("random").Random(f"construct:{prop}:{seed}:{shard}"))
     _g.PATHS_USED.clear()
     reach.start()
+    # wall-clock watchdog: a run that does not finish is INCONCLUSIVE, never "held" and never a hang (a change to the
+    # library can make a legitimate call allocate without bound).  Generous, so that a loaded machine cannot trip it.
+    import signal
+
+    class _Watchdog(BaseException):
+        pass
+
+    def _alarm(signum, frame):
+        raise _Watchdog()
+
+    limit = int(os.environ.get("RV_WATCHDOG_S", "2400" if tier != "thorough" else "10800"))
+    try:
+        signal.signal(signal.SIGALRM, _alarm)
+        signal.alarm(limit)
+    except (ValueError, OSError):
+        pass
     try:
         if replay is not None:
             ctx.replaying = True
             mod.replay(ctx, replay)
         else:
             mod.run(ctx)
+    except _Watchdog:
+        ctx.inconclusive_because(f"watchdog:{limit}s_wall_clock_exceeded_at_case:{ctx.current_cls}")
     except Exception as exc:  # harness crash: keep what was observed, never call it "held"
         import traceback
 
         traceback.print_exc()
         ctx.inconclusive_because(f"harness_error:{type(exc).__name__}:{str(exc)[:120]}")
     finally:
+        try:
+            signal.alarm(0)
+        except (ValueError, OSError):
+            pass
         counts = reach.stop()
     anchors = tuple(getattr(mod, "ANCHORS", ()))
     for k, v in counts.items():
